@@ -107,8 +107,20 @@ def run_case(tree, cfg):
     """-> (problems, info)"""
     out = make_output(tree, cfg)
     with _load.Scratch() as d:
+        for k, desc in enumerate(cfg.get("growing", [])):
+            # a run directory that grows while the process lives: earlier outputs (other trees, other units) are written and loaded
+            # as "the last output" one after the other, before the output of this case is written
+            earlier = M1.Output(tree_from(desc), ncpu=cfg["ncpu"], hydro=cfg["hydro"], nout=2 + 3 * k, unit_d=3.0 + k, unit_l=2.0, unit_t=5.0)
+            earlier.write(d)
+            try:
+                ds0, _ = _load.load(d, -1)
+                pr0 = _load.compare_mesh(earlier, ds0["mesh"], earlier.expected_mesh())
+            except Exception as e:
+                pr0 = [("load-raised:" + type(e).__name__, {})]
+            if pr0:
+                return [(sig + ":last-output-of-a-growing-run", det) for sig, det in pr0], {}
         out.write(d)
-        if cfg["nout"] == -1:
+        if cfg["nout"] == -1 and not cfg.get("growing"):
             # a decoy with a lower number and different content
             decoy = M1.Output(M1.Tree(tree.ndim, tree.levelmax, [], tree.levelmin), ncpu=cfg["ncpu"], hydro=cfg["hydro"], nout=3,
                               unit_d=7.0, unit_l=7.0, unit_t=7.0)
@@ -124,6 +136,8 @@ def run_case(tree, cfg):
     if "mesh" not in ds:
         return [("no-mesh-group", {"groups": list(ds.keys())})], {}
     problems += _load.compare_mesh(out, ds["mesh"], rows)
+    if cfg.get("growing"):
+        problems = [(sig + ":last-output-of-a-growing-run", det) for sig, det in problems]
     if int(ds.meta.get("ncells", -1)) != len(rows):
         problems.append(("meta-ncells", {"got": int(ds.meta.get("ncells", -1)), "expected": len(rows)}))
     try:
@@ -214,6 +228,13 @@ def cases(thorough, seed):
     for label, t, ncpu in scale_trees():
         for extra in ({}, {"ghosts": "first", "grav": True}, {"owners": "bylevel", "ghosts": "last", "bnd": "x2"}, {"info_format": "fortran", "ghosts": "all"}):
             yield ("S:" + label, t, dict(base0, ncpu=ncpu, **extra))
+    # block G: output number -1 in a run directory that receives new outputs between loads of one process
+    for label, trees in fams:
+        if label in ("1d-L2", "2d-L2", "3d-L2"):
+            ts = list(trees)
+            for i in range(0, min(len(ts), 12) - 2, 2):
+                for ncpu in (1, 2):
+                    yield ("G:" + label, ts[i + 2], dict(base0, nout=-1, ncpu=ncpu, growing=[ts[i].describe(), ts[i + 1].describe()]))
     base = {k: v[0] for k, v in SPACE.items()}
     # block A: every tree x 3 fixed configurations
     for label, trees in fams:
